@@ -61,12 +61,19 @@ def praj_quantiles(o):
     # compute_beta under its contract beta = -Phi^-1(P_A) (proved in C09 for the case that the root search reports success)
     pylife_ns = LibNS('pylife', {'strength': LibNS('pylife.strength', {'fkm_nonlinear': LibNS('pylife.strength.fkm_nonlinear', {
         'parameter_calculations': LibNS('pc', {'compute_beta': Builtin('compute_beta', lambda q: SV(-Pinv(q.t if isinstance(q, SV) else RV(float(q)))))})})})})
-    outer = Frame(o.I, mod, {'f_25': SV(f25), 'slope_woehler': SV(sw), 'lifetime_n_cycles': SV(Nbar), 'pylife': pylife_ns}, None,
+    # lifetime_n_cycles is a column over the assessment points, a point's life may be infinite: the generic element is N_bar or +inf; a reduction over the column
+    # (any / all / max ...) is an arbitrary value as far as the generic element is concerned (added after seed C10-c returned the column unchanged as soon as ANY
+    # point of the batch has infinite life)
+    Ninf = o.bool('N_bar_is_infinite')
+    outer = Frame(o.I, mod, {'f_25': SV(f25), 'slope_woehler': SV(sw), 'lifetime_n_cycles': SV(Nbar, pinf=Ninf, kind='series'), 'pylife': pylife_ns}, None,
                   'pylife.strength.fkm_nonlinear.damage_calculator::DamageCalculatorPRAJ.get_lifetime_functions', node=node)
     f = Func(inner[0], mod, outer, 'pylife.strength.fkm_nonlinear.damage_calculator::DamageCalculatorPRAJ.get_lifetime_functions.<locals>.N_max_bearable')
     got = o.run1(lambda: o.I.call(f, [SV(PA)]), label='N_max_bearable')
+    fin = z3.Not(Ninf)
+    gfin = z3.And(z3.Not(got.P()), z3.Not(got.N())) if got.has_inf else z3.BoolVal(True)
     o.prove('N_max_bearable(P_A) == N_bar 10^((log10 f_25 - (0.8 beta - 2) 0.155) slope_woehler) with beta = -Phi^-1(P_A)',
-            lg(got.t) == lg(Nbar) + (lg(f25) - (RV(0.8) * (-Pinv(PA)) - 2) * RV(0.155)) * sw, pairs=False)
+            z3.Implies(fin, z3.And(gfin, lg(got.t) == lg(Nbar) + (lg(f25) - (RV(0.8) * (-Pinv(PA)) - 2) * RV(0.155)) * sw)), pairs=False)
+    o.prove('an infinite life stays infinite for every failure probability', z3.Implies(Ninf, got.P() if got.has_inf else z3.BoolVal(False)))
     d = -1 / sw
 
     def N(p):
@@ -112,6 +119,50 @@ def b_batch(ctx):
                              f"single = A.perform_fkm_nonlinear_assessment(p.copy(), pd.Series([float(v) * {r} for v in seq]), calculate_P_RAM=True, calculate_P_RAJ=True)\n"
                              f"print(multi['{keys[0]}'], single['{keys[0]}'])\n")
     ctx.sample({'sequence': [100, -200, 100, -250, 200, 0, 200, -200], 'ratios': (1.0, 0.6, 1.5)})
+
+
+@bounded('C10', 'batch-independence-quantile-lifetimes', shards=4)
+def b_batch_quantiles(ctx):
+    """P_A = 50 %: the lifetimes for given failure probabilities (N_1ppm, N_10, N_50, N_90) of a point, relative to its own lifetime, do not depend on the co-assessed
+    points - in particular not on whether another point of the batch has infinite life - and are strictly ordered (added after seed C10-c)"""
+    import itertools
+    import numpy as np
+    import pandas as pd
+    seqs = [[100, -200, 100, -250, 200, 0, 200, -200], [150, -250, 250, -100, 200, -300]]
+    ratio_sets = [(1.0, 0.9), (1.0, 0.2), (1.0, 0.5, 0.15), (0.2, 1.0)]
+    ctx.bound = f"{len(seqs)} load sequences x point sets with load ratios {ratio_sets} (0.2 / 0.15: infinite life), Steel R_m=600, P_A=0.5, P_L=50, c=3, P_RAJ and P_RAM"
+    ctx.rule = "every (sequence, ratios, point) is one case; non-trivial: the batch mixes finite and infinite lives"
+    qs = ['N_1ppm', 'N_10', 'N_50', 'N_90']
+    for seq, ratios in itertools.product(seqs, ratio_sets):
+        if not ctx.mine():
+            continue
+        prm = base_params(P_A=0.5, P_L=50, c=3.0)
+        multi = assess(prm, batch_series(seq, ratios))
+        infinite = [bool(val(multi, 'P_RAJ_is_life_infinite', i)) for i in range(len(ratios))]
+        for i, r in enumerate(ratios):
+            single = assess(prm, pd.Series([float(v) * r for v in seq]))
+            for fam in ('P_RAJ', 'P_RAM'):
+                keys = [f'{fam}_lifetime_{q}' for q in qs]
+                if not all(k in single and k in multi for k in keys):
+                    ctx.count(f'no-quantile-lifetimes:{fam}')
+                    continue
+                ctx.case(len(set(infinite)) > 1, key=(tuple(seq), ratios, i, fam))
+                nb_m, nb_s = float(val(multi, f'{fam}_lifetime_n_cycles', i)), float(val(single, f'{fam}_lifetime_n_cycles'))
+                if not (np.isfinite(nb_m) and np.isfinite(nb_s)) or bool(val(single, f'{fam}_is_life_infinite')):
+                    continue
+                fm = [float(val(multi, k, i)) / nb_m for k in keys]
+                fs = [float(val(single, k)) / nb_s for k in keys]
+                repro = ("import pandas as pd\nimport pylife.strength.fkm_nonlinear.assessment_nonlinear_standard as A\n"
+                         f"p = pd.Series({dict(prm)!r})\nseq = {seq!r}; ratios = {list(ratios)!r}\n"
+                         "idx = pd.MultiIndex.from_product([range(len(seq)), range(len(ratios))], names=['load_step', 'node_id'])\n"
+                         "multi = A.perform_fkm_nonlinear_assessment(p.copy(), pd.Series([float(v) * r for v in seq for r in ratios], index=idx), calculate_P_RAM=True, calculate_P_RAJ=True)\n"
+                         f"single = A.perform_fkm_nonlinear_assessment(p.copy(), pd.Series([float(v) * {r} for v in seq]), calculate_P_RAM=True, calculate_P_RAJ=True)\n"
+                         f"for k in {keys!r}: print(k, multi[k], single[k])\n")
+                if not np.allclose(fm, fs, rtol=1e-6, atol=0):
+                    ctx.fail(f'C10:batch-quantiles:{fam}', f'{fam}: point {i} (ratio {r}) of {seq} x {ratios}: N_q / N_bar = {fm} in the batch (infinite lives: {infinite}), {fs} alone', repro)
+                elif not all(a < b for a, b in zip(fs, fs[1:])):
+                    ctx.fail(f'C10:quantile-order:{fam}', f'{fam}: point {i} of {seq} x {ratios}: N_1ppm < N_10 < N_50 < N_90 does not hold: {fs}', repro)
+    ctx.sample({'sequence': [100, -200, 100, -250, 200, 0, 200, -200], 'ratios': (1.0, 0.2)})
 
 
 @bounded('C10', 'batch-independence-per-point-gradient', shards=4)
